@@ -596,7 +596,7 @@ func lengthRef(g orb.Geometry, df orb.DistanceFunc) float64 {
 			t += lengthRef(p, df)
 		}
 	case orb.Bound:
-		return seg(x.ToRing())
+		return seg(refmodel.BoundRing(x))
 	case orb.Collection:
 		for _, m := range x {
 			t += lengthRef(m, df)
